@@ -625,7 +625,11 @@ def run_models(jobs, namer=None, chunk=1000, batch=25):
   Returns, per job, the canonicalised model answers in order (None for a KeyError history)."""
   bodies = []
   meta = []
-  for jn, (kind, items) in enumerate(jobs):
+  parsers = {}
+  for jn, job in enumerate(jobs):
+    kind, items = job[0], job[1]
+    if len(job) > 2:
+      parsers[jn] = job[2]
     for i in range(0, len(items), chunk):
       part = items[i:i + chunk]
       lines = []
@@ -639,7 +643,8 @@ def run_models(jobs, namer=None, chunk=1000, batch=25):
         lst = "; ".join(part[j:j + batch])
         lines.append(("Eval vm_compute in (map rs [%s]).\n" if kind == "state" else "Eval vm_compute in [%s].\n") % lst)
       name = "c18_%s_%04d" % (kind, i // chunk)
-      hdr = HEADER + ("From PV Require Import Flow.Proofs.\n" if kind == "rstate" else "")
+      hdr = HEADER + {"rstate": "From PV Require Import Flow.Proofs.\n",
+                      "frame": "From PV Require Import Flow.Frame.\n"}.get(kind, "")
       bodies.append((name, hdr + "".join(lines)))
       meta.append((jn, kind, name, len(part)))
   results = run_files_parallel(bodies, timeout=900)
@@ -657,7 +662,10 @@ def run_models(jobs, namer=None, chunk=1000, batch=25):
     if len(got) != n:
       raise common.BuildError("cases file %s: expected %d answers, got %d" % (name, n, len(got)))
     for t in got:
-      outs[jn].append(model_cond(t) if kind == "cond" else model_opt(t, model_state))
+      if jn in parsers:
+        outs[jn].append(parsers[jn](t))
+      else:
+        outs[jn].append(model_cond(t) if kind == "cond" else model_opt(t, model_state))
 
   return outs
 
@@ -994,7 +1002,10 @@ def run(res):
               "one representative per distinct reachable state, plus random merge_into pairs of <=2-operation states, "
               "plus a time-boxed sampled stream of histories with 5 or more operations (mostly 5-9) (half shaped branch/branch -> merge -> "
               "with_condition -> store over an existing name -> merge_into) whose real states are compared under "
-              "all valuations with a reference interpreter of the property; "
+              "all valuations with a reference interpreter of the property; frames: the real FrameBase over every forward "
+              "block graph of <=4 (thorough 5) blocks (last opcode: fall-through / jump / conditional jump on one of 2 "
+              "atoms / return) x sampled straight-line stores and initial locals, entry states, _states and "
+              "_final_locals compared with the model, entry states checked by path enumeration; "
               "a case is non-trivial when the result is not a constant / has >=1 local, distinct by canonical "
               "rendering" % max_ops)
   res.assumptions = [
@@ -1002,7 +1013,10 @@ def run(res):
       "module singletons (the code tests them with `is`)",
       "values are hashable with ==/hash agreeing (ints in the harness); names are str",
       "Python set/frozenset/dict semantics as modelled in Flow/Model.v (insertion-ordered assoc lists, set equality)",
-      "frame_base.py's choice of which block merges into which is not modelled (only merge_into itself)",
+      "frame_base.py: FrameBase.__init__/step/_merge_state_into are modelled at block granularity (Flow/Frame.v) and "
+      "driven for real over fake opcodes; the opcode handlers (store, JUMP_FORWARD-like, POP_JUMP_IF_FALSE-like with "
+      "conditions a / Not(a)) are harness code mirroring rewrite/frame.py, whose own handlers use a placeholder "
+      "Condition(); loops (back edges) are outside the theorem and the generated graphs",
       "generator, canonical renderer and differ in harness/props/c18.py",
   ]
   common.coq_obligations(res, "C18")
@@ -1024,6 +1038,8 @@ def run(res):
   res.extra["histories_run"] = len(progs)
 
   # ---- model side (coqc in the background) ------------------------------------------------------------
+  import c18_frame  # pylint: disable=import-outside-toplevel
+  fcases = c18_frame.gen_cases(common.rng(res.seed, "c18-frame"), thorough)
   wits = witnesses()
   namer = Namer()
   for lvl in levels[:-1]:
@@ -1032,10 +1048,11 @@ def run(res):
   box = {}
   def model_thread():
     try:
-      box["cond"], box["state"], box["wit"] = run_models(
+      box["cond"], box["state"], box["wit"], box["frame"] = run_models(
           [("cond", [call_to_coq(k, a) for k, a, _ in calls]),
            ("state", [namer.term(p) for p in progs]),
-           ("rstate", [w[1] for w in wits])], namer)
+           ("rstate", [w[1] for w in wits]),
+           ("frame", [c18_frame.spec_to_coq(sp, ini) for sp, ini in fcases], c18_frame.parse_model)], namer)
     except BaseException as e:  # pylint: disable=broad-except
       box["error"] = e
   th = threading.Thread(target=model_thread)
@@ -1139,6 +1156,35 @@ def run(res):
         res.sample({"history": prog_str(p), "real_state": repr(st)})
         break
 
+  # ---- leg 3c: the real FrameBase over small block graphs: path-enumeration oracle ---------------------
+  freal = []
+  n_fviol = 0
+  fhist = {}
+  n_dead = 0
+  for sp, ini in fcases:
+    ents, sts, fl, snaps = c18_frame.run_real(sp, ini)
+    freal.append((list(ents), sts, fl))
+    fhist[len(sp)] = fhist.get(len(sp), 0) + 1
+    n_dead += sts is None
+    reached = sum(1 for e in ents if e is not None)
+    res.count(("frame", sp, ini) if reached >= 3 else None)
+    bad = c18_frame.path_oracle(sp, ini, snaps)
+    if bad is not None:
+      n_fviol += 1
+      if n_fviol <= 2:
+        res.violation(("frame-join-not-exact:%s" % c18_frame.spec_str(sp, ini))[:140],
+                      "%s: under valuation %s the entry state of block #%d gives %s = %s, the enabled path gives %s" % (
+                          c18_frame.spec_str(sp, ini), bad[0], bad[1], bad[2], bad[3], bad[4]),
+                      {"kind": "frame", "spec": [[list(map(list, st)), list(t)] for st, t in sp],
+                       "init": [list(xv) for xv in ini]})
+  res.obligation("oracle:frame-path-enumeration", n_fviol == 0,
+                 "%d of %d block graphs: an entry state differs from the path semantics" % (n_fviol, len(fcases)))
+  res.extra["frame_graphs"] = {"n": len(fcases), "by_blocks": dict(sorted(fhist.items())),
+                               "died_with_KeyError(unreachable block)": n_dead}
+  for sp, ini in fcases[:2]:
+    res.sample({"frame_graph": c18_frame.spec_str(sp, ini),
+                "real_final_locals": str(c18_frame.run_real(sp, ini)[2])})
+
   # ---- leg 4: merge_into oracle on all pairs of reachable states (real objects only) -------------------
   if thorough:
     extra = [p for p, _ in levels[3]]
@@ -1217,6 +1263,20 @@ def run(res):
                  "%d of %d histories disagree; first: %s" % (
                      len(mism), len(progs),
                      [(prog_str(progs[i]), str(real_states[i]), str(model_states[i])) for i in mism[:1]]))
+  fm = box["frame"]
+  fmism = []
+  for i, ((sp, ini), (ents, sts, fl)) in enumerate(zip(fcases, freal)):
+    real_t = (ents, None if sts is None else dict(sts), fl)
+    if real_t[1] is not None:
+      real_t[1].setdefault(-1, None)
+    if (list(fm[i][0]), fm[i][1], fm[i][2]) != real_t:
+      fmism.append(i)
+  for i in fmism[:3]:
+    common.log("[C18] frame mismatch: %s\n   real =%s\n   model=%s" % (
+        c18_frame.spec_str(*fcases[i]), freal[i], fm[i]))
+  res.obligation("correspondence:FrameBase-block-graphs", not fmism,
+                 "%d of %d block graphs disagree; first: %s" % (
+                     len(fmism), len(fcases), [c18_frame.spec_str(*fcases[i]) for i in fmism[:2]]))
   bad_w = [w[0] for w, mw in zip(wits, box["wit"]) if mw != w[2]]
   res.obligation("correspondence:hand-built-witnesses", not bad_w, "model and real classes differ on %s" % bad_w)
   res.extra["outside_quantifier_witnesses_violate_on_real_code"] = {w[0]: w[3] for w in wits}
@@ -1253,6 +1313,18 @@ def replay(res, path):
     bad = var_with_oracle(v, c, r)
     print("var   :", v, " with_condition", c, "->", r)
     print("oracle:", bad)
+    return 1 if bad is not None else 0
+  if rp["kind"] == "frame":
+    import c18_frame  # pylint: disable=import-outside-toplevel
+    sp = tuple((tuple(tuple(xv) for xv in st), tuple(t)) for st, t in rp["spec"])
+    ini = tuple(tuple(xv) for xv in rp["init"])
+    print("block graph:", c18_frame.spec_str(sp, ini))
+    ents, sts, fl, snaps = c18_frame.run_real(sp, ini)
+    for k, e in enumerate(ents):
+      print("  entry state of block #%d:" % k, e)
+    print("  final locals:", fl)
+    bad = c18_frame.path_oracle(sp, ini, snaps)
+    print("path oracle (valuation, block #, what, got, want):", bad)
     return 1 if bad is not None else 0
   p = prog_from_json(rp["history"])
   print("history:", prog_str(p))
